@@ -1,6 +1,10 @@
 # executed by tools_manifest.py
 _NOTE = ("Trusted base: numpy/scipy reference formulas in vp/oracle.py and the per-property oracle code, Hypothesis as generator/shrinker, "
-         "JAX/XLA numerics. Explored bounds (dims, batch sizes, case counts) are in the evidence file; absence beyond them is not shown.")
+         "JAX/XLA numerics. Explored bounds (dims, batch sizes, case counts) are in the evidence file; absence beyond them is not shown. "
+         "Besides O(1) payloads every run visits the regimes listed in DESIGN.md 1.1 where they apply to the property: overall scales 0.03-30 and "
+         "1e+-8 units, means 1e4-1e6 standard deviations from the origin, sharp-vs-vague mixtures (C09, C11), sizes beyond 16 / 512 / 1024 / 2^20 "
+         "(dimension, batch, points, kernels, draws), objects with a past (queried, updated in place, update_Sigma), the same object on both sides, "
+         "a second different query on one object, and the jitted program before the eager one (C18).")
 claim("C01", "property-based testing (Hypothesis) against an independent numpy oracle",
       "Generated measures (4 kinds x 3 cache states) x factors (6 kinds) x {multiply,*,hadamard,product} x update_full are evaluated pointwise and compared with ln u_i(x)+ln f_j(x) computed in numpy from the constructor inputs, at the documented component layout; operand immutability checked bytewise.",
       _NOTE, "DESIGN.md §2 C01")
